@@ -14,6 +14,9 @@ VERIF = os.path.dirname(os.path.dirname(os.path.abspath(__file__)))
 def main():
     want = sys.argv[1:]
     out = {"at": time.strftime("%Y-%m-%d %H:%M:%S"), "rows": {}}
+    last = os.path.join(VERIF, "selftest", "seeded_matrix_last.json")
+    if want and os.path.exists(last):
+        out["rows"] = json.load(open(last))["rows"]  # a partial run refreshes its rows and keeps the others
     for sid in sorted(os.listdir(os.path.join(VERIF, "seeded"))):
         d = os.path.join(VERIF, "seeded", sid)
         if not os.path.isfile(os.path.join(d, "meta.json")) or (want and not any(w in sid for w in want)):
